@@ -48,6 +48,9 @@ type RespPlan struct {
 	// ReadErrAfter > 0: the body reader (Stream 1 or 2) fails with an error once this many bytes have been handed out
 	// (counted from 1: 1 = fails on the first Read) — the handler's side of the response goes wrong mid-way
 	ReadErrAfter int
+	// WriterGate (Stream 3 only): after its first chunk the stream writer waits for this gate - a producer that has
+	// nothing to say for a while (server-sent events, a slow backend)
+	WriterGate chan struct{}
 }
 
 type chunkReader struct {
@@ -231,7 +234,9 @@ func (h *Harness) Handle(ctx *fasthttp.RequestCtx) {
 		if chunk <= 0 {
 			chunk = 4096
 		}
+		wg := plan.WriterGate
 		ctx.Response.SetBodyStreamWriter(func(w *bufio.Writer) {
+			first := true
 			for len(body) > 0 {
 				n := min(chunk, len(body))
 				if _, err := w.Write(body[:n]); err != nil {
@@ -241,6 +246,10 @@ func (h *Harness) Handle(ctx *fasthttp.RequestCtx) {
 					return
 				}
 				body = body[n:]
+				if first && wg != nil {
+					<-wg
+				}
+				first = false
 			}
 		})
 	}
